@@ -495,13 +495,18 @@ func TestC13(t *testing.T) {
 			}
 			return b.String()
 		}
-		usage, err := k8s.CalculatePodsRequestedUsage(pods)
+		var usage k8s.PodRequestedUsage
+		var capa k8s.NodeAvailableCapacity
+		var err, err2 error
+		callTarget(rt, "C13", "request/capacity calculators", func() {
+			usage, err = k8s.CalculatePodsRequestedUsage(pods)
+			capa, err2 = k8s.CalculateNodesCapacity(nodes, pods)
+		})
 		if err != nil {
 			fail(rt, dumpPath(), "C13:request-error", "%v\n%s", err, desc())
 		}
-		capa, err := k8s.CalculateNodesCapacity(nodes, pods)
-		if err != nil {
-			fail(rt, dumpPath(), "C13:capacity-error", "%v\n%s", err, desc())
+		if err2 != nil {
+			fail(rt, dumpPath(), "C13:capacity-error", "%v\n%s", err2, desc())
 		}
 		col.Eval(1)
 		if !wantC.has(usage.Total.MilliCPU) || !wantM.has(usage.Total.Memory) {
